@@ -51,6 +51,8 @@ declarations:
 - decl: int total(const std::vector<int> & v)
 - decl: int * newints(int n) +owner(caller)+dimension(n)+deref(pointer)
 - decl: const char * label(int k) +deref(allocatable)
+- decl: char * dupname(int k) +owner(caller)
+- decl: std::string * newstring(int k) +owner(caller)
 patterns:
   pool_release: |
     Cls *cxx_ptr = reinterpret_cast<Cls *>(ptr);
@@ -75,6 +77,8 @@ void fill(std::vector<int> &v, int n);
 int total(const std::vector<int> &v);
 int *newints(int n);
 const char *label(int k);
+char *dupname(int k);
+std::string *newstring(int k);
 #endif
 """
 
@@ -115,6 +119,8 @@ void upper(std::string &s) { for (size_t i = 0; i < s.size(); i++) if (s[i] >= '
 void fill(std::vector<int> &v, int n) { v.clear(); for (int i = 0; i < n; i++) v.push_back(i * i); }
 int total(const std::vector<int> &v) { int t = 0; for (size_t i = 0; i < v.size(); i++) t += v[i]; return t; }
 int *newints(int n) { int *p = (int *)malloc(sizeof(int) * (n > 0 ? n : 1)); for (int i = 0; i < n; i++) p[i] = 10 + i; return p; }
+char *dupname(int k) { char *p = (char *)malloc(8); p[0] = 'D'; p[1] = (char)('0' + k % 10); p[2] = 0; return p; }
+std::string *newstring(int k) { return new std::string((size_t)(k % 7), 's'); }
 const char *label(int k) { static char b[16]; b[0] = 'L'; b[1] = (char)('0' + k % 10); b[2] = 0; return b; }
 """
 
@@ -229,6 +235,10 @@ program fdrv
       t = total(w(1:min(n, 5)))
       s = label(n)
       if (len(s) /= 2) stop 12
+      s = dupname(n)
+      if (len(s) /= 2) stop 14
+      s = newstring(n)
+      if (len(s) /= n) stop 15
     end do
     a = cls(k)
     b = a%%clone()
